@@ -111,6 +111,7 @@ ob("c02::exact_cases_are_contract", ["C02", "C01", "C03"], tier="thorough", cls=
 ob("c02::canary_new_add_lo_zero", "C02", cls="canary", timeout=300, expect="refuted")
 ob("c02::from_f64_exact", "C02", cls="leaf", timeout=120, functions=["TwoFloat::from_f64", "From<f64> for TwoFloat"])
 ob("c02::new_mul_hi", ["C02", "C04"], cls="leaf", timeout=300, functions=["TwoFloat::new_mul"], backend="cbmc+cvc5")
+ob("c02::new_mul_is_two_prod", ["C02", "C04"], cls="miter", timeout=300, functions=["TwoFloat::new_mul"], backend="cbmc+cvc5", share=True)
 ob("c02::new_mul_valid", ["C02", "C01", "C04"], tier="thorough", cls="leaf", timeout=9000, functions=["TwoFloat::new_mul"])
 ob("c02::fts_far", ["C02", "C01", "C03"], cls="leaf", timeout=300, functions=_FTS)
 ob("c02::fts_zero", ["C02", "C01", "C03"], cls="leaf", timeout=300, functions=_FTS)
